@@ -110,7 +110,9 @@ func (t *EnumType) Default() px.Type {
 
 func (t *EnumType) Equals(o interface{}, g px.Guard) bool {
 	if ot, ok := o.(*EnumType); ok {
-		return t.caseInsensitive == ot.caseInsensitive && len(t.values) == len(ot.values) && utils.ContainsAllStrings(t.values, ot.values)
+		// inclusion in both directions: with a repeated value, inclusion one way does not imply the other
+		return t.caseInsensitive == ot.caseInsensitive && len(t.values) == len(ot.values) &&
+			utils.ContainsAllStrings(t.values, ot.values) && utils.ContainsAllStrings(ot.values, t.values)
 	}
 	return false
 }
